@@ -52,7 +52,7 @@ func (s step) String() string {
 
 var stepKinds = []string{"connect", "bitfield", "have", "haveall", "havenone", "donthave", "unchoke", "choke",
 	"answer", "answer", "answer", "answer-short", "answer-empty", "answer-long", "answer-misplaced", "answer-unrequested",
-	"reject", "sleep", "sleep", "close", "want", "want", "unwant", "evict", "close+tick", "connect+close", "adv-burst", "adv-burst"}
+	"reject", "sleep", "sleep", "close", "want", "want", "unwant", "evict", "close+tick", "connect+close", "adv-burst", "adv-burst", "busy-burst"}
 
 type world struct {
 	x       *sim.Tor
@@ -258,6 +258,59 @@ func run(rt *rapid.T, steps []step, g sim.Geometry) (fail string, w *world) {
 			m.r.SendRaw(raw)
 			m.have, m.haveAll = nh, false
 			w.lab("advertise-burst")
+		case "busy-burst":
+			// the torrent's loop is busy and its queue full while the peer
+			// advertises, retracts and perhaps leaves: the peer's notifications
+			// pile up on its side and must reach the torrent in the order in
+			// which they were made
+			if !connected {
+				continue
+			}
+			hold := make(chan *peer.TorStats)
+			t.Event <- peer.TorGetStats{Ch: hold}
+			sim.Settle()
+			for len(t.Event) < cap(t.Event) {
+				t.Event <- peer.TorAnnounce{}
+			}
+			var raw []byte
+			nh := map[int]bool{}
+			for k, v := range m.have {
+				nh[k] = v
+			}
+			if m.haveAll {
+				for k := 0; k < x.N; k++ {
+					nh[k] = true
+				}
+			}
+			for j := 0; j < 6; j++ {
+				k := (i + j*3) % x.N
+				if (s.A>>uint(j))&1 == 0 {
+					if !nh[k] {
+						raw = append(raw, ref.Encode(ref.Msg{Kind: ref.KHave, Index: uint32(k)})...)
+						nh[k] = true
+					}
+				} else {
+					raw = append(raw, ref.Encode(ref.Msg{Kind: ref.KExtended, Sub: 3, X: ref.XDontHave, Index: uint32(k)})...)
+					delete(nh, k)
+				}
+			}
+			m.r.SendRaw(raw)
+			sim.Settle()
+			m.have, m.haveAll = nh, false
+			w.lab("advertise-while-torrent-busy")
+			if (s.A>>8)&1 == 1 {
+				m.r.Close()
+				sim.Settle()
+				m.open = false
+				m.pending = nil
+				m.r = nil
+				m.have, m.haveAll, m.unchoked = map[int]bool{}, false, false
+				w.lab("leave-while-torrent-busy")
+			}
+			select {
+			case <-hold:
+			case <-time.After(time.Second):
+			}
 		case "have":
 			if !connected {
 				continue
